@@ -974,6 +974,20 @@ func (c *CEnv) callExpr(e *CE, hint *Value) Value {
 			return Value{K: KScalar, T: a.T, X: Ite(m.cmp(token.LSS, a.X, b.X, it), a.X, b.X)}
 		}
 		return Value{K: KScalar, T: a.T, X: Ite(m.cmp(token.GTR, a.X, b.X, it), a.X, b.X)}
+	case "istype":
+		// istype(e, T): the dynamic type of the interface value e is the package's type T
+		if len(e.Args) != 2 || e.Args[1].Kind != "id" {
+			c.fail("istype(e, T) needs an interface value and a type name: %s", e)
+		}
+		a := c.eval(e.Args[0])
+		if a.K != KIface {
+			c.fail("istype() of a non-interface value")
+		}
+		obj := c.pkg.Types.Scope().Lookup(e.Args[1].Name)
+		if obj == nil {
+			c.fail("istype(): unknown type %s", e.Args[1].Name)
+		}
+		return Value{K: KScalar, T: types.Typ[types.Bool], X: c.x.dynTypeIs(a.X, obj.Type())}
 	case "errcode":
 		a := c.eval(e.Args[0])
 		sort := m.ixSort()
